@@ -60,7 +60,8 @@ Module SegOrder <: TotalLeBool.
 End SegOrder.
 Module SegSort := Sort SegOrder.
 
-Definition no_conflicts (es : list seg) : bool := sweep_outer (SegSort.sort es).
+Definition nondeg (e : seg) : bool := negb (pt_eqb (fst e) (snd e)).
+Definition no_conflicts (es : list seg) : bool := forallb nondeg es && sweep_outer (SegSort.sort es).
 
 (* ---- simple contours ---- *)
 Fixpoint mem_pt (p : pt) (l : list pt) : bool :=
